@@ -181,6 +181,9 @@ pub fn cases(tier: Tier, _seed: u64) -> Vec<Case> {
     let d = |n: usize, a: Act| L::Dense(n, a, false);
     out.push(learn_case_wired("dense4-skips-1to2-1to3", Shape::Single(2), vec![d(2, Linear), d(2, Linear), d(2, Linear), d(1, Linear)], vec![(1, 2), (1, 3)], 1, 2, 2, "explore"));
     out.push(learn_case_wired("dense4-skips-1to2-1to3", Shape::Single(2), vec![d(2, Tanh), d(2, Linear), d(2, Tanh), d(1, Linear)], vec![(1, 3), (1, 2)], 1, 3, 3, "reversed"));
+    // dropout layers in training mode: the mask of a sample must not depend on which closure runs first
+    out.push(learn_case("densedrop-dense", Shape::Single(2), vec![L::DenseDrop(3, Linear, true, 0.5), L::Dense(1, Linear, true)], 1, 3, 3));
+    out.push(learn_case_mode("convdrop-dense", Shape::Triple(1, 2, 2), vec![L::ConvDrop(1, (1, 1), (1, 1), (0, 0), (1, 1), Linear, 0.5), L::Dense(1, Linear, false)], 1, 4, 4, "reversed"));
     if full {
         out.push(learn_case_wired("dense5-skips-1to2-1to3-1to4", Shape::Single(2), vec![d(2, Linear), d(2, Linear), d(2, Linear), d(2, Linear), d(1, Linear)], vec![(1, 2), (1, 3), (1, 4)], 1, 2, 2, "explore"));
         out.push(learn_case_wired("dense4-skips-0to1-1to2-1to3", Shape::Single(2), vec![d(2, Linear), d(2, Linear), d(2, Linear), d(1, Linear)], vec![(0, 1), (1, 2), (1, 3)], 1, 2, 1, "explore"));
